@@ -111,6 +111,30 @@ def linearView (b : Branch) (start stop : Option Nat) (exclCommon : Bool) : Opti
         some ((lh.takeWhile (· != s)).map mk ++ (if exclCommon then [] else [mk s]))
       else none
 
+/-- the ghost at which the left-hand walk from `r` stops, if it stops at one (`RevisionNotPresent`) -/
+def lefthandGhost (g : Graph) : Nat → Nat → Option Nat
+  | 0, _ => none
+  | fuel + 1, r =>
+    match g[r]? with
+    | none => none
+    | some [] => none
+    | some (p :: _) => if p < g.length then lefthandGhost g fuel p else some p
+
+/-- the extra `(ghost_id, None, None)` tuple `_linear_view_revisions` yields when the left-hand walk of a range
+runs into a ghost before it is cut at the start revision.  Without a range the walk is the branch's own
+mainline, which never contains a ghost (assumption shared with C22).  With a start revision that is not found
+the generator still raises `_StartNotLinearAncestor` afterwards (`linearView` = `none`). -/
+def linearGhost (b : Branch) (start stop : Option Nat) : Option Nat :=
+  match start, stop with
+  | none, none => none
+  | _, _ =>
+    match (match stop with | some e => some e | none => b.tip) with
+    | none => none
+    | some e =>
+      match start with
+      | some s => if (lefthand b.g (e + 1) e).contains s then none else lefthandGhost b.g (e + 1) e
+      | none => lefthandGhost b.g (e + 1) e
+
 def ofMS (e : MS) : V := ⟨e.rev, e.revno, e.depth⟩
 
 /-- the depth adjustment loop of `_graph_view_revisions` -/
@@ -292,5 +316,31 @@ def touchLoop (modified : List Nat) (includeMerges : Bool) : List (Option V) →
 revisions in which the per-file graph has a node for the file -/
 def touching (modified : List Nat) (includeMerges : Bool) (l : List V) : List V :=
   touchLoop modified includeMerges [none] l
+
+/-! ### the specification of the per-file filter (no stack)
+
+A revision *encloses* the revisions that follow it at greater depth (up to the
+next revision that is not deeper): the revisions it merged.  The filter is
+meant to list a revision iff it modified the file or encloses a revision that
+did (without merges: only the depth-0 ones). -/
+
+/-- some revision that modified the file occurs in the maximal run of revisions deeper than `d` at the head of the list -/
+def groupHasMod (modified : List Nat) (d : Nat) : List V → Bool
+  | [] => false
+  | w :: l => decide (d < w.depth) && (modified.contains w.rev || groupHasMod modified d l)
+
+/-- the view revisions that modified the file or enclose one that did -/
+def enclosingExpected (modified : List Nat) (includeMerges : Bool) : List V → List V
+  | [] => []
+  | v :: l =>
+    if (modified.contains v.rev || groupHasMod modified v.depth l) && (includeMerges || v.depth == 0) then
+      v :: enclosingExpected modified includeMerges l
+    else enclosingExpected modified includeMerges l
+
+/-- the depth goes up by at most one from one revision to the next (it may drop by any amount); `n` = 1 + the
+depth of the previous revision.  Every merge-sorted list has this shape (`mergeSort_stepwise`). -/
+def stepwise : Nat → List V → Bool
+  | _, [] => true
+  | n, v :: l => decide (v.depth ≤ n) && stepwise (v.depth + 1) l
 
 end BreezyVerif.C25
